@@ -2,6 +2,7 @@ package c06
 
 import (
 	"bufio"
+	"encoding/json"
 	"fmt"
 	"io"
 	"os"
@@ -122,7 +123,14 @@ func (e *engineA) report(cs Case, obs Observed, fs []finding) {
 func (e *engineA) replay(cs Case, stepsExp []step) error {
 	obs, err := runReal(cs.Rq, cs.Seen, len(stepsExp) > 0)
 	if err != nil {
-		return fmt.Errorf("engine A: real collector failed on %s: %v", core.Canon(cs.Rq), err)
+		// the real collector failed (error or panic) on a legal request: reproduce, then report
+		if _, err2 := runReal(cs.Rq, cs.Seen, false); err2 != nil {
+			e.c.Violation("A/collector-error", fmt.Sprintf("real collector fails: %v; request %s over %d matches", err, core.Canon(cs.Rq), len(cs.Seen)),
+				map[string]any{"engine": "A", "case": cs, "pre_alloc_cap": currentCap()})
+			atomic.AddInt64(&e.cases, 1)
+			return nil
+		}
+		return fmt.Errorf("engine A: real collector failed once on %s: %v", core.Canon(cs.Rq), err)
 	}
 	atomic.AddInt64(&e.cases, 1)
 	if cs.Rq.Mode == "page" && cs.Rq.Size+cs.Rq.Skip > 10 || cs.Rq.Mode != "page" && cs.Rq.Size > 10 {
@@ -153,28 +161,52 @@ func (e *engineA) account(cs Case) {
 // parallel workers).
 func (e *engineA) dumpAndReplay(module, cfg string, workers int, timeout time.Duration) error {
 	c := e.c
-	o := c.TLCOpts(module, cfg, core.Workers(workers), core.Timeout(timeout))
-	o.KeepDir = true
-	dumpDir := c.TempDir("dump")
-	defer os.RemoveAll(dumpDir)
-	dumpFile := filepath.Join(dumpDir, "states")
-	o.Args = append(o.Args, "-dump", dumpFile)
-	res, err := tlc.Run(o)
-	c.Account(module, cfg, "exhaustive+dump", res)
-	if res != nil {
-		defer os.RemoveAll(res.RunDir)
+	// development aid (mutation testing): VERIF_C06_CACHE=<dir> keeps the TLC dump
+	// between runs; a run that used the cache says so in its evidence.
+	cache := os.Getenv("VERIF_C06_CACHE")
+	cached := ""
+	if cache != "" {
+		cached = filepath.Join(cache, cfg+".dump")
 	}
-	if err != nil {
-		return fmt.Errorf("TLC %s/%s: %v", module, cfg, err)
-	}
-	if !res.OK {
-		// a counterexample in the model alone is never a violation (DESIGN 3.4)
-		return fmt.Errorf("TLC %s/%s did not pass (violated=%q): %s", module, cfg, res.Violated, firstLines(res.ErrorText, 8))
-	}
-	c.Logf("model %s/%s: %d distinct states, depth %d, %.1fs; replaying", module, cfg, res.Distinct, res.Depth, res.Wall.Seconds())
-	f, err := os.Open(dumpFile + ".dump")
-	if err != nil {
-		return err
+	var f *os.File
+	var distinct int64 = -1
+	if _, err := os.Stat(cached); cached != "" && err == nil {
+		c.Assume("development run: states of " + cfg + " taken from VERIF_C06_CACHE, TLC not re-run")
+		f, err = os.Open(cached)
+		if err != nil {
+			return err
+		}
+	} else {
+		o := c.TLCOpts(module, cfg, core.Workers(workers), core.Timeout(timeout))
+		o.KeepDir = true
+		dumpDir := c.TempDir("dump")
+		defer os.RemoveAll(dumpDir)
+		dumpFile := filepath.Join(dumpDir, "states")
+		o.Args = append(o.Args, "-dump", dumpFile)
+		res, err := tlc.Run(o)
+		c.Account(module, cfg, "exhaustive+dump", res)
+		if res != nil {
+			defer os.RemoveAll(res.RunDir)
+		}
+		if err != nil {
+			return fmt.Errorf("TLC %s/%s: %v", module, cfg, err)
+		}
+		if !res.OK {
+			// a counterexample in the model alone is never a violation (DESIGN 3.4)
+			return fmt.Errorf("TLC %s/%s did not pass (violated=%q): %s", module, cfg, res.Violated, firstLines(res.ErrorText, 8))
+		}
+		distinct = res.Distinct
+		c.Logf("model %s/%s: %d distinct states, depth %d, %.1fs; replaying", module, cfg, res.Distinct, res.Depth, res.Wall.Seconds())
+		if cached != "" {
+			if b, err := os.ReadFile(dumpFile + ".dump"); err == nil {
+				_ = os.MkdirAll(cache, 0o755)
+				_ = os.WriteFile(cached, b, 0o644)
+			}
+		}
+		f, err = os.Open(dumpFile + ".dump")
+		if err != nil {
+			return err
+		}
 	}
 	defer f.Close()
 
@@ -248,8 +280,8 @@ func (e *engineA) dumpAndReplay(module, cfg string, workers int, timeout time.Du
 	if v := firstErr.Load(); v != nil {
 		return v.(error)
 	}
-	if n != res.Distinct {
-		return fmt.Errorf("engine A: dump of %s holds %d states, TLC reported %d distinct", cfg, n, res.Distinct)
+	if distinct >= 0 && n != distinct {
+		return fmt.Errorf("engine A: dump of %s holds %d states, TLC reported %d distinct", cfg, n, distinct)
 	}
 	return nil
 }
@@ -258,37 +290,55 @@ func (e *engineA) dumpAndReplay(module, cfg string, workers int, timeout time.Du
 // each one step-wise (store and lowest after every offer).
 func (e *engineA) simulateAndReplay(module, cfg string, num, depth int, seeds []int64, keep *[][]Case) error {
 	c := e.c
-	type out struct {
-		behs []tlc.Behaviour
-		err  error
+	cache := os.Getenv("VERIF_C06_CACHE")
+	cached := ""
+	if cache != "" {
+		cached = filepath.Join(cache, fmt.Sprintf("%s.%d.%d.json", cfg, num, seeds[0]))
 	}
-	res := make([]out, len(seeds))
-	var wg sync.WaitGroup
-	for i, sd := range seeds {
-		wg.Add(1)
-		go func(i int, sd int64) {
-			defer wg.Done()
-			b, err := c.Simulate(module, cfg, num, depth, sd, core.Timeout(20*time.Minute))
-			res[i] = out{b, err}
-		}(i, sd)
-	}
-	wg.Wait()
 	var all [][]Case
-	for i := range res {
-		if res[i].err != nil {
-			return fmt.Errorf("TLC simulate %s/%s: %v", module, cfg, res[i].err)
+	if b, err := os.ReadFile(cached); cached != "" && err == nil {
+		c.Assume("development run: behaviours of " + cfg + " taken from VERIF_C06_CACHE, TLC not re-run")
+		if err := json.Unmarshal(b, &all); err != nil {
+			return err
 		}
-		for _, b := range res[i].behs {
-			var cases []Case
-			for _, st := range b {
-				cs, err := parseCase(st)
-				if err != nil {
-					return err
-				}
-				cases = append(cases, cs)
+	} else {
+		type out struct {
+			behs []tlc.Behaviour
+			err  error
+		}
+		res := make([]out, len(seeds))
+		var wg sync.WaitGroup
+		for i, sd := range seeds {
+			wg.Add(1)
+			go func(i int, sd int64) {
+				defer wg.Done()
+				b, err := c.Simulate(module, cfg, num, depth, sd, core.Timeout(20*time.Minute))
+				res[i] = out{b, err}
+			}(i, sd)
+		}
+		wg.Wait()
+		for i := range res {
+			if res[i].err != nil {
+				return fmt.Errorf("TLC simulate %s/%s: %v", module, cfg, res[i].err)
 			}
-			if len(cases) > 0 {
-				all = append(all, cases)
+			for _, b := range res[i].behs {
+				var cases []Case
+				for _, st := range b {
+					cs, err := parseCase(st)
+					if err != nil {
+						return err
+					}
+					cases = append(cases, cs)
+				}
+				if len(cases) > 0 {
+					all = append(all, cases)
+				}
+			}
+		}
+		if cached != "" {
+			if b, err := json.Marshal(all); err == nil {
+				_ = os.MkdirAll(cache, 0o755)
+				_ = os.WriteFile(cached, b, 0o644)
 			}
 		}
 	}
